@@ -9,6 +9,14 @@ CHECKS = {
          "Generated-input search: every lattice point of (bits, aggregation, capacity) plus random cases with value/promise/blinding/RNG/seed/context classes; prove must succeed, verify must succeed in three modes, an independently written verifier must accept the bytes. Exploration, not proof: absence of a counter-example in a measured stratified sample.",
          "Trusts the reference implementation in harness/bpv/src/refimpl.rs (validated against recorded 0.4.0 vectors in C19) and that engine F (free module) exercises the same generic library code as Ristretto.",
          "DESIGN.md section 3, C01"),
+ "C02": ("exploration", "property-based testing with a differential oracle: coordinate-wise comparison of the verifier's final equation with an independent reference relation over a free-module engine (garbage proofs), plus verdict comparison on mutated / cheating-prover proofs",
+         "Generated-input search for any deviation of the verifier's relation from the published protocol: over the free module every coefficient of the final multiscalar equation is read off and must equal weight x the reference residual on every coordinate for random garbage proofs (all terms active at once); verdicts on mutated honest proofs and on reference-prover proofs of false statements must agree with the reference in both directions, in VerifyOnly and RecoverAndVerify, and cancelling defect pairs in a batch must be refused.",
+         "Trusts refimpl.rs as the specification of the relation; algebraic comparison is on engine F (same generic library code, harness-defined group), Ristretto contributes verdict comparisons; zero-round proofs cannot be built from bytes (known finding C15) and are excluded and counted.",
+         "DESIGN.md section 3, C02"),
+ "C03": ("exploration", "property-based testing over generated batch histories (pool + index sequence + positions + permutation) with singleton verification and the reference verifier as oracle",
+         "Generated batches of size 1..1100 (boundaries 255/256/257/511/512/513 stratified), invalid members at generated positions, mixed aggregation/capacity, all modes, permutations; malformed batches; cancelling defect pairs. Batch verdict must equal AND of singleton verdicts, results must be k long and aligned.",
+         "Singleton verification by the library (cross-checked against the reference verifier) decides member validity; long batches use members of at most 8 bits.",
+         "DESIGN.md section 3, C03"),
 }
 NOT_YET = "check not built yet in this revision of /verif (planned in DESIGN.md section 3)"
 m = {
